@@ -584,6 +584,18 @@ func (it *Interp) opQueryDeadTarget(op *Op) {
 			if b.W.IsLocked() != (it.M.OpenQ > 0) {
 				fail("query|dead-target|unsafe-lock", "%s step %d: an ID-based query with the removed target %v left the world locked (panic: %v)", b.Name, it.Step, dead, p)
 			}
+			// "Panics if used with an index Relation": an ID-based query with RelIdx is rejected, and the rejected query
+			// holds no lock afterwards
+			pi := try(func() {
+				q := ecs.NewUnsafeFilter(b.W, id).Query(ecs.RelIdx(0, b.wildcardOrAlive(it)))
+				q.Close()
+			})
+			if pi == nil {
+				fail("query|unsafe-relidx|accepted", "%s step %d: an ID-based query with a RelIdx relation did not panic", b.Name, it.Step)
+			}
+			if b.W.IsLocked() != (it.M.OpenQ > 0) {
+				fail("query|unsafe-relidx|lock", "%s step %d: a rejected ID-based query (RelIdx relation) left the world locked", b.Name, it.Step)
+			}
 			if p == nil && (n != 0 || cnt != 0) {
 				fail("query|dead-target|unsafe-yields", "%s step %d: ID-based query for %s with the removed entity %v as target counts %d and visits %d entities (first %v)", b.Name, it.Step, comps.All[r.C].Name, dead, cnt, n, first)
 			}
@@ -669,4 +681,14 @@ func (it *Interp) opBulkObs(op *Op) {
 	})
 	it.checkObserverCount()
 	it.count("bulk-observers")
+}
+
+// wildcardOrAlive returns some alive entity of the backend (or the zero entity).
+func (b *Backend) wildcardOrAlive(it *Interp) ecs.Entity {
+	for s := len(b.H) - 1; s >= 0; s-- {
+		if h := b.H[s]; !h.IsZero() && b.W.Alive(h) {
+			return h
+		}
+	}
+	return ecs.Entity{}
 }
